@@ -170,6 +170,7 @@ def run(ctx):
         else:
             groups["good"].append((t, l, v))
     probes = {}
+    emitted_rc = {}
     pd = os.path.join(work, "probe")
     os.makedirs(pd, exist_ok=True)
 
@@ -180,6 +181,15 @@ def run(ctx):
         idl += "interface IC%s {\n%s};\n" % (tag, "".join("  const %s J%d = %s;\n" % (t, i, l) for i, (t, l, v) in enumerate(consts[:40])))
         open(os.path.join(d, "k.idl"), "w").write(idl)
         out = {}
+        # the text of every backend is compared with the emitter model whether or not it is compiled here
+        os.makedirs(os.path.join(d, "rs"), exist_ok=True)
+        os.makedirs(os.path.join(d, "java"), exist_ok=True)
+        open(os.path.join(d, "kj.idl"), "w").write("".join("const %s K%d = %s;\n" % (t, i, l) for i, (t, l, v) in enumerate(consts)))
+        em = {"c": scrape.idlc_run(ctx["idlc"], os.path.join(d, "k.idl"), os.path.join(d, "k.h"))[0],
+              "cpp": scrape.idlc_run(ctx["idlc"], os.path.join(d, "k.idl"), os.path.join(d, "k.hpp"), "cpp")[0],
+              "rust": scrape.idlc_run(ctx["idlc"], os.path.join(d, "k.idl"), os.path.join(d, "rs"), "rust")[0],
+              "java": scrape.idlc_run(ctx["idlc"], os.path.join(d, "kj.idl"), os.path.join(d, "java"), "java", False)[0]}
+        emitted_rc[tag] = em
         if "c" in langs:
             r = scrape.idlc_run(ctx["idlc"], os.path.join(d, "k.idl"), os.path.join(d, "k.h"))
             src = '#include <stdio.h>\n#include <inttypes.h>\n#include "k.h"\nint main(void){\n'
@@ -297,6 +307,43 @@ def run(ctx):
     with ThreadPoolExecutor(max_workers=8) as ex:
         probes = dict(ex.map(lambda j: build(*j), jobs))
     nprobe = 0
+    # ---- the emitted text against the emitter model (ConstEmit.v): every constant of every job
+    def esc(x):
+        return x.replace('"', '""')
+    edefs, eitems = [], []
+    for tag, consts, langs in jobs:
+        d = os.path.join(pd, tag)
+        if any(emitted_rc.get(tag, {}).get(k, 1) != 0 for k in ("c", "cpp", "rust", "java")):
+            continue
+        txt = {"c": scrape.rd(os.path.join(d, "k.h")), "cpp": scrape.rd(os.path.join(d, "k.hpp")),
+               "rust": scrape.rd(os.path.join(d, "rs", "k.rs")), "java": scrape.rd(os.path.join(d, "java", "kj.java"))}
+        found = {"c": dict(re.findall(r"^#define K(\d+) (.*)$", txt["c"], re.M)),
+                 "cpp": dict(re.findall(r"^static const \w+ K(\d+) = (.*);$", txt["cpp"], re.M)),
+                 "rust": dict(re.findall(r"^pub const K(\d+): \w+ = (.*);$", txt["rust"], re.M)),
+                 "java": dict(re.findall(r"^\s*\w+ K(\d+) = (.*);$", txt["java"], re.M))}
+        for i, (t, l, v) in enumerate(consts):
+            got = [found[k].get(str(i)) for k in ("c", "cpp", "java", "rust")]
+            if None in got:
+                res["corr_broken"].append({"kind": "scrape", "detail": "constant K%d of probe group %s not found in the %s output" % (i, tag, ["C", "C++", "Java", "Rust"][got.index(None)])})
+                continue
+            eitems.append((tag, t, l, got))
+    EB = 120
+    for k in range(0, len(eitems), EB):
+        chunk = eitems[k:k + EB]
+        items = "; ".join('(%s, "%s", ("%s", "%s", "%s", "%s"))' % (COQP[t], esc(l), esc(g[0]), esc(g[1]), esc(g[2]), esc(g[3])) for _, t, l, g in chunk)
+        edefs.append((k, "Definition es_%d : list (prim * string * (string * string * string * string)) := [%s].\n" % (k, items), "chk_c17_emit es_%d" % k))
+    eres, eerrors = vlib.eval_cases(os.path.join(work, "coq_emit"), "emit", "From MinkV Require Import Consts ConstEmit.\n", edefs, shard_size=4)
+    for e in eerrors:
+        res["corr_broken"].append({"kind": "case-evaluation", "detail": e})
+    emit_hist = {}
+    for k in range(0, len(eitems), EB):
+        flags = eres.get(k, [])
+        for (tag, t, l, g), fl in zip(eitems[k:k + EB], flags + [None] * (len(eitems[k:k + EB]) - len(flags))):
+            emit_hist[fl] = emit_hist.get(fl, 0) + 1
+            if fl is not None and fl != 15:
+                which = [n for b, n in ((1, "C"), (2, "C++"), (4, "Java"), (8, "Rust")) if not fl & b]
+                res["corr_broken"].append({"kind": "correspondence", "detail": "emitter model (ConstEmit.v) vs generated text disagree for %s %s in %s: emitted C `%s`, C++ `%s`, Java `%s`, Rust `%s`" % (
+                    t, l, ", ".join(which), g[0], g[1], g[2], g[3]), "case": {"property": prop, "type": t, "literal": l, "emitted": g, "group": tag}})
 
     def check_group(tag, consts, must_pass):
         nonlocal nprobe
@@ -365,6 +412,7 @@ def run(ctx):
                 "signed zero, leading zeros, fractional forms, overlong numerals and random values; floats: boundary magnitudes, long numerals, hex; "
                 "every literal through the real parser; accepted integer constants compiled and printed by gcc, clang, g++, clang++, rustc, javac",
         "samples": [list(x) for x in lits[:5]], "l0_codes": {str(k): v for k, v in sorted(hist.items())},
+        "emitted_texts_compared_with_model": len(eitems), "emitted_text_flags": {str(k): v for k, v in emit_hist.items()},
         "probe_values_compared": nprobe, "probe_groups": {k: len(v) for k, v in groups.items()}, "known_witnesses_confirmed": sorted(set(known)),
     }
     return res
